@@ -29,6 +29,8 @@ import BMV.Vlog.Check
 import BMV.So
 import BMV.Proofs.So
 import BMV.Proofs.VlogTotal
+import BMV.Proofs.VlogSafe3
+import BMV.Proofs.VlogElab3
 namespace BMV.Props.C18
 open BMV.Vlog BMV.So
 
@@ -194,19 +196,125 @@ example : 0 ∈ barrierShape.blockTargets 0 ∧ 0 ∈ barrierShape.blockTargets 
 
 /-! ## `wf_total`: the full statement, and the part that is proved -/
 
-/-- an evaluation error of the *elaboration class*: a name that was never resolved, or a signal index
-    that does not exist in the design (messages of `BMV.Vlog.Sem`) -/
-def ElabClassError (msg : String) : Bool :=
-  msg.startsWith "undeclared identifier" || msg.startsWith "internal: signal index"
+/-- **elab_sigs_in_range**: a design returned by `elaborate` on a file set as the reader delivers it
+    (`Source.fromReader`: no elaborated `.sig` node in the source — the S-expression reader `OfSexp` has no
+    production for one; the oracle re-checks it on every file set) is `Resolved`: no identifier and no `for`
+    is left, and every signal index in every stored assignment, port connection, `always` / `initial` body
+    is below `d.sigs.size`.  Proved through both elaboration passes, block-local declarations, `for`
+    unrolling, instance flattening to any depth (induction on the instantiation fuel). -/
+theorem elab_sigs_in_range (src : Source) (hsrc : src.fromReader = true) (top : Option String) (d : Design)
+    (h : elaborate src top = .ok d) : d.Resolved = true := elaborate_resolved src hsrc top d h
 
-/-- **wf_total — full statement, NOT proved**: a design produced by `elaborate` and accepted by the lint
-    never hits an elaboration-class error during a clock cycle, whatever the state and the inputs.
-    (Evaluation-class errors — out-of-range dynamic index, division by zero, non-settling logic —
-    remain possible; docs/Vlog.md §3.) -/
-def wf_total : Prop :=
-  ∀ (src : Source) (top : Option String) (d : Design), elaborate src top = .ok d → d.WF = true →
-    ∀ (clk : Nat) (st : State) (inputs : List (Nat × Nat)) (msg : String),
-      d.cycle clk st inputs = .error msg → ElabClassError msg = false
+/-- **wf_expr_total**: on *every* identifier-free expression with in-range signal indices — all operators
+    including `/ %`, bit / part / indexed selects, memory words, concatenation, replication — width
+    computation, evaluation in any context width, and the right-hand side of an assignment never raise an
+    elaboration-class error (they may raise evaluation-class ones: the guards the evaluator itself checks). -/
+theorem wf_expr_total (sigs : Array Sig) (st : State) (hst : sigs.size ≤ st.size) (e : Expr)
+    (he : wfE sigs.size e = true) (msg : String) :
+    (selfW sigs e = .error msg → ElabClassError msg = false) ∧
+    (∀ W, evalC sigs st W e = .error msg → ElabClassError msg = false) ∧
+    (∀ lw, evalAssign sigs st lw e = .error msg → ElabClassError msg = false) :=
+  ⟨(selfW_safe sigs e he).1 msg, fun W => (evalC_safe sigs st hst e he W).1 msg,
+   fun lw => (evalAssign_safe sigs st hst lw e he).1 msg⟩
+
+/-- **wf_stmt_total**: executing a well-formed statement (blocking / non-blocking assignments to any
+    left-hand side, `if`, `case`, `begin/end`; `for` is gone after unrolling) in a block state whose storage
+    and pending writes are in range never raises an elaboration-class error and keeps that invariant. -/
+theorem wf_stmt_total (sigs : Array Sig) (s : Stmt) (x : XSt) (hs : wfS sigs.size s = true)
+    (hx : XOk sigs.size x) :
+    (∀ msg, exec sigs x s = .error msg → ElabClassError msg = false) ∧
+    (∀ x', exec sigs x s = .ok x' → XOk sigs.size x') := exec_safe sigs s x hs hx
+
+/-- **wf_total_of_resolved**: `wf_total` with "`d` comes from `elaborate`" replaced by what `elaborate` has
+    to establish, `d.Resolved` (decidable; the oracle evaluates it on every design it lints).  Covers `init`,
+    `cycle` (inputs → settle → every triggered process → commit → settle), `poke`, and the storage invariant
+    that lets the statement be iterated over a whole `run`. -/
+theorem wf_total_of_resolved (d : Design) (hd : d.Resolved = true) :
+    (∀ msg, d.init = .error msg → ElabClassError msg = false) ∧
+    (∀ st0, d.init = .ok st0 → d.sigs.size ≤ st0.size) ∧
+    (∀ (clk : Nat) (st : State) (inputs : List (Nat × Nat)), d.sigs.size ≤ st.size →
+      (∀ msg, d.cycle clk st inputs = .error msg →
+        ElabClassError msg = false ∨ d.setInputs st inputs = .error msg) ∧
+      (∀ st', d.cycle clk st inputs = .ok st' → d.sigs.size ≤ st'.size)) ∧
+    (∀ (st : State) (inputs : List (Nat × Nat)), d.sigs.size ≤ st.size →
+      (∀ msg, d.poke st inputs = .error msg →
+        ElabClassError msg = false ∨ d.setInputs st inputs = .error msg) ∧
+      (∀ st', d.poke st inputs = .ok st' → d.sigs.size ≤ st'.size)) :=
+  ⟨(init_safe d hd).1, (init_safe d hd).2,
+   fun clk st inputs hst => cycle_safe d hd clk st inputs hst,
+   fun st inputs hst => poke_safe d hd st inputs hst⟩
+
+/-- **wf_total** (DESIGN.md 5.3) — the full statement, proved.  A design produced by `elaborate` from a
+    file set as the reader delivers it never hits an *elaboration-class* error (`ElabClassError`: an
+    unresolved name, or any `internal:` condition — signal index out of range, no storage for a signal, loop
+    not unrolled) when it is initialised, clocked or poked, in any state that has storage for the design's
+    signals and for any inputs; the only other way `cycle` / `poke` can fail is `setInputs` rejecting the
+    caller's input list (its messages quote signal names, so they are returned verbatim in the second
+    disjunct).  The lint hypothesis `d.WF` of the DESIGN.md statement is not needed for this and is kept
+    only in the corollary `wf_total_wf`.
+    Excluded on purpose — *evaluation-class* errors remain possible and are reported by the evaluator:
+    out-of-range bit / part / memory select, division or modulo by zero, a memory used as a vector,
+    non-constant where a constant is required, non-settling combinational logic. -/
+theorem wf_total (src : Source) (hsrc : src.fromReader = true) (top : Option String) (d : Design)
+    (hel : elaborate src top = .ok d) :
+    (∀ msg, d.init = .error msg → ElabClassError msg = false) ∧
+    (∀ st0, d.init = .ok st0 → d.sigs.size ≤ st0.size) ∧
+    (∀ (clk : Nat) (st : State) (inputs : List (Nat × Nat)), d.sigs.size ≤ st.size →
+      (∀ msg, d.cycle clk st inputs = .error msg →
+        ElabClassError msg = false ∨ d.setInputs st inputs = .error msg) ∧
+      (∀ st', d.cycle clk st inputs = .ok st' → d.sigs.size ≤ st'.size)) ∧
+    (∀ (st : State) (inputs : List (Nat × Nat)), d.sigs.size ≤ st.size →
+      (∀ msg, d.poke st inputs = .error msg →
+        ElabClassError msg = false ∨ d.setInputs st inputs = .error msg) ∧
+      (∀ st', d.poke st inputs = .ok st' → d.sigs.size ≤ st'.size)) :=
+  wf_total_of_resolved d (elab_sigs_in_range src hsrc top d hel)
+
+/-- the statement in the shape of DESIGN.md 5.3 (`d.WF → ∀ s i, cycle d s i ≠ elaboration error`) -/
+theorem wf_total_wf (src : Source) (hsrc : src.fromReader = true) (top : Option String) (d : Design)
+    (hel : elaborate src top = .ok d) (_hwf : d.WF = true) (clk : Nat) (st : State)
+    (inputs : List (Nat × Nat)) (hst : d.sigs.size ≤ st.size) (msg : String)
+    (herr : d.cycle clk st inputs = .error msg) :
+    ElabClassError msg = false ∨ d.setInputs st inputs = .error msg :=
+  ((wf_total src hsrc top d hel).2.2.1 clk st inputs hst).1 msg herr
+
+/-- a whole run from the initial state: the storage invariant makes `wf_total` iterable -/
+theorem wf_total_run (src : Source) (hsrc : src.fromReader = true) (top : Option String) (d : Design)
+    (hel : elaborate src top = .ok d) (clk : Nat) :
+    ∀ (ins : List (List (Nat × Nat))) (st : State), d.sigs.size ≤ st.size →
+      ∀ st', d.run clk st ins = .ok st' → d.sigs.size ≤ st'.size
+  | [], st, hst, st', h => by
+    unfold Design.run at h
+    simp only [pure, Except.pure, Except.ok.injEq] at h; subst h; exact hst
+  | i :: is, st, hst, st', h => by
+    unfold Design.run at h
+    obtain ⟨st1, h1, h2⟩ := bind_ok h
+    have := ((wf_total src hsrc top d hel).2.2.1 clk st i hst).2 st1 h1
+    exact wf_total_run src hsrc top d hel clk is st1 this st' h2
+
+/-! non-vacuity of `wf_total`: a source the reader could deliver, accepted by `elaborate`
+   (`elabModule` is defined by well-founded recursion, which the kernel does not unfold: its success on this
+   source is evaluated at build time by `#guard`; the oracle exercises it on every emitted file set), and a
+   `Resolved` design with a state of the right shape -/
+
+def tinySrc : Source := ⟨[⟨"t", ["clk", "q"], [
+  .decl ⟨.input, .none, none, [⟨"clk", none, none⟩]⟩,
+  .decl ⟨.output, .reg, some ⟨.num none 3, .num none 0⟩, [⟨"q", none, none⟩]⟩,
+  .always false [(.pos, .id "clk")] (.assign false (.id "q") (.bin .add (.id "q") (.num (some 4) 1)))]⟩]⟩
+
+example : tinySrc.fromReader = true := by decide
+#guard (match elaborate tinySrc none with | .ok d => d.Resolved && d.WF && d.sigs.size == 2 | .error _ => false)
+#guard (match (do let d ← elaborate tinySrc none; let s ← d.init; d.cycle 0 s []) with | .ok _ => true | .error _ => false)
+example : cleanDesign.Resolved = true := by decide
+example : cleanDesign.sigs.size ≤ (#[#[0], #[0]] : State).size := by decide
+example : barrierShape.Resolved = true ∧ barrierShape.WF = false := by decide
+
+/-- the message classification is not vacuous: the evaluator's two elaboration-class texts are in the
+    class, typical evaluation-class texts are not -/
+example (n : String) : ElabClassError s!"undeclared identifier {n}" = true := by
+  simp [ElabClassError, String.toList_append, ToString.toString, List.isPrefixOf]
+example (i : Nat) : ElabClassError s!"internal: signal index {i} out of range" = true := by
+  simp [ElabClassError, String.toList_append, ToString.toString, List.isPrefixOf]
+example : ElabClassError "division by zero" = false := by decide
 
 /-- **resolve_closed_partial** (first half of the partial): whatever `resolveExpr` accepts contains no
     source-level identifier any more, so the evaluator's `undeclared identifier` branch is unreachable on
